@@ -313,7 +313,7 @@ func (e *Engine) checkSubs() {
 		case pr.owners >= 1 && n == 0:
 			e.H.Violate("C09", "owned-subject-not-subscribed", "", fmt.Sprintf("service %q owned=%v queue=%v: request subject %s lies under %d owned pattern(s) but no subscription matches it; subscriptions: %v", c.SvcName, c.Owned, qg(c), pr.subject, pr.owners, subjectsOf(conn)))
 		case pr.owners == 1 && n != 1:
-			e.H.Violate("C09", "redundant-subscription", "", fmt.Sprintf("service %q owned=%v queue=%v: request subject %s lies under one owned pattern but is delivered %d times; subscriptions: %v", c.SvcName, c.Owned, qg(c), pr.subject, n, subjectsOf(conn)))
+			e.H.Violate("C09", "redundant-subscription", redundancySignature(pr.subject, resSet, routedSubjects(conn, pr.subject)), fmt.Sprintf("service %q owned=%v queue=%v: request subject %s lies under one owned pattern but is delivered %d times; subscriptions: %v", c.SvcName, c.Owned, qg(c), pr.subject, n, subjectsOf(conn)))
 		}
 	}
 	// end to end: a delivered request under a single owned pattern gets one response
@@ -371,3 +371,63 @@ func (e *Engine) errorLog() []string {
 }
 
 func init() { register(SubsScenario{}) }
+
+// wildcardSwallowsMethod classifies a redundant delivery: for call and auth
+// the subscription of an owned pattern P.> is <type>.P.>, whose full wildcard
+// also matches <type>.P.<method>, the subject of a method call on resource P
+// itself, which is not under P.>. If the request is such a subject the
+// signature names that shape.
+func wildcardSwallowsMethod(subject string, resSet []string) string {
+	rtype, rname, method := SplitSubject(subject)
+	if (rtype != "call" && rtype != "auth") || method == "" {
+		return ""
+	}
+	for _, q := range resSet {
+		if strings.HasSuffix(q, ".>") && !nameUnder(q, rname) && nameUnder(q, rname+"."+method) {
+			return "method-token-matched-by-full-wildcard"
+		}
+	}
+	return ""
+}
+
+func routedSubjects(conn *simconn.Conn, subject string) []string {
+	var out []string
+	for _, s := range conn.Route(subject) {
+		out = append(out, s.Subject)
+	}
+	return out
+}
+
+// patternCovers reports whether every subject matched by subscription b is
+// matched by subscription a.
+func patternCovers(a, b string) bool {
+	at, bt := strings.Split(a, "."), strings.Split(b, ".")
+	for i, t := range at {
+		if t == ">" {
+			return len(bt) > i
+		}
+		if i >= len(bt) || bt[i] == ">" {
+			return false
+		}
+		if t != "*" && t != bt[i] {
+			return false
+		}
+	}
+	return len(at) == len(bt)
+}
+
+// redundancySignature classifies a redundant delivery. If one of the
+// subscriptions that match the subject is covered by another one, it is
+// redundant outright; otherwise, if the overlap is the method token of a call
+// or auth subject being matched by the full wildcard of another owned
+// pattern, the signature names that shape.
+func redundancySignature(subject string, resSet, matching []string) string {
+	for i, a := range matching {
+		for j, b := range matching {
+			if i != j && patternCovers(a, b) {
+				return "covered-subscription"
+			}
+		}
+	}
+	return wildcardSwallowsMethod(subject, resSet)
+}
